@@ -204,6 +204,27 @@ pub fn judge(c: &Case, st: &mut Stats) -> Verdict {
 /// seeds that are 2 mod 8 - a short NUL-terminated path followed by non-zero bytes behind the terminator.
 pub fn unix_path(seed: u32) -> Vec<u8> {
     let mut p = fill(seed, 108);
+    if seed % 8 == 6 && seed < 0xffff_fff0 {
+        // a socket address as people write it in configuration files (with and without a scheme, abstract, relative, doubled
+        // or trailing slashes, blanks), NUL-terminated; the rest zero or - for every other seed - non-zero
+        const NAMES: [&str; 24] = [
+            "/var/run/haproxy.sock", "/run//app.sock", "/run/./app.sock", "/run/app.sock/", "unix:/run/client.sock", "unix:///run/client.sock", "unix://run/x", "unix:",
+            "UNIX:/run/x.sock", "@abstract-name", "./relative.sock", "../up.sock", "file:///run/x.sock", "tcp://192.0.2.1:80", "~/.app.sock", " /leading-blank",
+            "/trailing-blank ", "/with\nnewline", "/tmp/\u{e9}.sock", "unix:@abstract", "/", "//", "/run/app.sock\r\n", "localhost",
+        ];
+        let name = NAMES[(seed as usize / 8) % NAMES.len()].as_bytes();
+        let garbage = (seed / 8 / NAMES.len() as u32) % 2 == 1;
+        for (i, b) in p.iter_mut().enumerate() {
+            if i < name.len() {
+                *b = name[i];
+            } else if i == name.len() || !garbage {
+                *b = 0;
+            } else if *b == 0 {
+                *b = 1;
+            }
+        }
+        return p;
+    }
     if seed % 8 == 2 && seed < 0xffff_fff0 {
         let n = 1 + (seed as usize / 8) % 40;
         for (i, b) in p.iter_mut().enumerate() {
@@ -241,7 +262,17 @@ pub fn gen_case(t: &mut Tape) -> Case {
     // equal): role swaps are invisible there, but value-dependent rewrites are not
     if t.chance(1, 6) {
         let a6 = *t.pick(&SPECIAL_V6);
-        let b6 = if t.chance(1, 3) { a6 } else { *t.pick(&SPECIAL_V6) };
+        let b6 = match t.below(4) {
+            0 => a6,
+            1 => {
+                // the same prefix (first six groups), another host part
+                let mut b = a6;
+                b[6] = 0xc633;
+                b[7] = 0x6407;
+                b
+            }
+            _ => *t.pick(&SPECIAL_V6),
+        };
         let a4 = *t.pick(&SPECIAL_V4);
         let b4 = if t.chance(1, 3) { a4 } else { *t.pick(&SPECIAL_V4) };
         let sp = *t.pick(&[0u16, 0, 1, 65535, 80]);
@@ -257,8 +288,8 @@ pub fn gen_case(t: &mut Tape) -> Case {
         };
         let scope = [sc(t, &a6), sc(t, &b6)];
         let flow = [if t.coin() { 0 } else { t.u32() }, if t.coin() { 0 } else { t.u32() }];
-        let us = crate::engine::gen_seed(t);
-        let ud = if t.chance(1, 3) { us } else { crate::engine::gen_seed(t) };
+        let us = if t.coin() { t.u32() & !7 | 6 } else { crate::engine::gen_seed(t) };
+        let ud = if t.chance(1, 3) { us } else if t.coin() { t.u32() & !7 | 6 } else { crate::engine::gen_seed(t) };
         return Case { a4, b4, a6, b6, sp, dp, flow, scope, unix_seed: [us, ud] };
     }
     let mut c = Case {
@@ -270,7 +301,7 @@ pub fn gen_case(t: &mut Tape) -> Case {
         dp: crate::gen::gen_port(t),
         flow: [t.u32(), t.u32()],
         scope: [t.u32(), t.u32()],
-        unix_seed: [if t.chance(1, 4) { t.u32() & !7 | 2 } else { crate::engine::gen_seed(t) }, if t.chance(1, 4) { t.u32() & !7 | 2 } else { crate::engine::gen_seed(t) }],
+        unix_seed: [if t.chance(1, 4) { t.u32() & !7 | 2 } else if t.chance(1, 4) { t.u32() & !7 | 6 } else { crate::engine::gen_seed(t) }, if t.chance(1, 4) { t.u32() & !7 | 2 } else if t.chance(1, 4) { t.u32() & !7 | 6 } else { crate::engine::gen_seed(t) }],
     };
     // zone-like scope ids: equal to one of the address's own groups
     if t.chance(1, 5) {
